@@ -4,6 +4,7 @@
 -/
 import Cgp.GatewaySpec
 import Cgp.Proofs.C02
+import Cgp.Toy
 namespace Cgp.Props.C02
 open Cgp Cgp.Xdr Cgp.Gateway
 open Cgp.Proofs.C02
@@ -242,5 +243,62 @@ theorem keys_distinct (c i c' i' : Bytes) (hc : c.length < 256 ^ 4) (hi : i.leng
   injection h2 with _ h3 _
   injection h3 with h3
   exact ⟨h3, h1⟩
+
+/-! ### non-vacuity (the model RUN in the kernel on a concrete history, toy hash) -/
+section NonVacuity
+open Cgp.Toy
+
+def dest0 : Addr := ⟨true, List.replicate 32 9⟩
+def other0 : Addr := ⟨true, List.replicate 32 10⟩
+/-- the message that gets approved … -/
+def mA : Message := ⟨[97], [49], [98], dest0, List.replicate 32 3⟩
+/-- … and one with the same (chain, id) but other content -/
+def mB : Message := ⟨[97], [49], [99], dest0, List.replicate 32 4⟩
+def opsC : List (Op Unit) :=
+  [ .approve [mA] pf0,                                                         -- recorded, one event
+    .validateMessage [] dest0 [97] [49] [98] (List.replicate 32 3),            -- no authorisation of the caller: error
+    .validateMessage [other0] other0 [97] [49] [98] (List.replicate 32 3),     -- not the destination: false
+    .validateMessage [dest0] dest0 [97] [49] [98] (List.replicate 32 4),       -- other payload hash: false
+    .approve [mB] pf0,                                                         -- re-approval with other content: inert, no event
+    .validateMessage [dest0] dest0 [97] [49] [98] (List.replicate 32 3),       -- the destination, its authorisation: true
+    .validateMessage [dest0] dest0 [97] [49] [98] (List.replicate 32 3),       -- again: false
+    .approve [mB] pf0,                                                         -- inert
+    .validateMessage [dest0] dest0 [97] [49] [99] (List.replicate 32 4) ]      -- the other content was never recorded: false
+
+/-- `consume_at_most_once`, `approved_content_stable` and `consume_binds_fields` speak about histories that exist: on a freshly
+    constructed gateway a message is approved, consumption attempts without authorisation / by another contract / with another
+    payload hash fail, a re-approval with other content is inert, the destination consumes it (true), a second attempt
+    returns false.  The bound `≤ 1` is attained (the count is 1, and 0 before the consumption); the hypothesis of
+    `approved_content_stable` holds after the first call and both of its outcomes occur (the record stays through five further
+    calls, then becomes executed); all four hypotheses of `consume_binds_fields` hold at the successful consumption. -/
+theorem consume_history_nonvacuous :
+    ∃ w0, constructed H0 owner0 owner0 [1] 0 0 [ws0] 5 = some w0 ∧
+      -- `consume_binds_fields`: both messages are typed, the consumption succeeds (the record is in the last group)
+      mA.Typed ∧
+      ({ sourceChain := mA.sourceChain, messageId := mA.messageId, sourceAddress := [98], contract := dest0,
+         payloadHash := List.replicate 32 3 } : Message).Typed ∧
+      (∃ st' evs, validateMessage H0 (run H0 V0 w0 (opsC.take 5)).1.st [dest0] dest0 mA.sourceChain mA.messageId [98]
+          (List.replicate 32 3) = .ok (st', true, evs)) ∧
+      -- the history: which calls succeeded, what the consumption attempts returned, how many events each call emitted
+      (run H0 V0 w0 opsC).2.map gwOk = [true, false, true, true, true, true, true, true, true] ∧
+      (run H0 V0 w0 opsC).2.map gwRet = [none, none, some false, some false, none, some true, some false, none, some false] ∧
+      (run H0 V0 w0 opsC).2.map gwEvents = [1, 0, 0, 0, 0, 1, 0, 0, 0] ∧
+      -- `consume_at_most_once`: the bound is attained
+      consumptions [97] [49] opsC (run H0 V0 w0 opsC).2 = 1 ∧
+      consumptions [97] [49] (opsC.take 5) (run H0 V0 w0 (opsC.take 5)).2 = 0 ∧
+      -- `approved_content_stable`: its hypothesis after the first call, and both outcomes
+      w0.st.approvals [97] [49] = .notApproved ∧
+      (run H0 V0 w0 (opsC.take 1)).1.st.approvals [97] [49] = .approved (messageHash H0 mA) ∧
+      (run H0 V0 (run H0 V0 w0 (opsC.take 1)).1 ((opsC.drop 1).take 4)).1.st.approvals [97] [49] = .approved (messageHash H0 mA) ∧
+      (run H0 V0 (run H0 V0 w0 (opsC.take 1)).1 (opsC.drop 1)).1.st.approvals [97] [49] = .executed ∧
+      messageHash H0 mB ≠ messageHash H0 mA ∧
+      (run H0 V0 w0 (opsC.take 5)).1.st.approvals mA.sourceChain mA.messageId = .approved (messageHash H0 mA) := by
+  refine ⟨_, rfl, ?_, ?_, ?_, ?_⟩
+  · simp only [Message.Typed, Addr.WF]; decide +kernel
+  · simp only [Message.Typed, Addr.WF]; decide +kernel
+  · refine (consume_iff H0 _ _ _ _ _ _ _).2 ⟨?_, ?_⟩ <;> decide +kernel
+  · decide +kernel
+
+end NonVacuity
 
 end Cgp.Props.C02
